@@ -18,7 +18,23 @@ for i in range(1, 21):
     streams = ", ".join("%s→%s" % (s["harness"], s.get("driver", "(oracle only)")) for s in c.get("streams", []))
     out.append("| %s | %d | %s | %s |" % (pid, len(th), streams, ", ".join("`%s`" % n for n in names[:14]) + (" …" if len(names) > 14 else "")))
 out.append("")
-out.append("What is `_partial`, what is only tied and what is only searched is stated per property in `props/<id>.json` (`level_note`, `modelled_not_verified`, `assumptions`) and copied into each evidence file.\n")
+out.append("What is `_partial`, what is only tied and what is only searched is stated per property in `props/<id>.json` (`level_note`, `modelled_not_verified`, `assumptions`) and copied into each evidence file; the texts follow.\n")
+for i in range(1, 21):
+    pid = "C%02d" % i
+    p = os.path.join(R, "props", pid + ".json")
+    if not os.path.exists(p):
+        continue
+    c = json.load(open(p))
+    out.append("**%s.** %s" % (pid, (c.get("level_text") or "").strip()))
+    if c.get("level_note"):
+        out.append("\n*Trusted / partial:* " + c["level_note"].strip())
+    mnv = c.get("modelled_not_verified") or []
+    if mnv:
+        out.append("\n*Modelled or tied, not verified:* " + "; ".join(str(x).strip() for x in mnv[:12]))
+    asm = c.get("assumptions") or []
+    if asm:
+        out.append("\n*Assumptions:* " + "; ".join(str(x).strip() for x in asm[:10]))
+    out.append("")
 
 known, fixed = [], []
 for l in open(os.path.join(R, "known-findings.txt")):
